@@ -116,3 +116,22 @@ fn c12_q_tileset_compressed_length_max() {
 fn c12_t_tileset_compressed_length_just_above_allowance() {
     tileset_compressed_length((64 << 20) + 8192 * 38 + 1);
 }
+
+/// tilemap cel (type 3, 32 bits per tile), declared width x height over all of u16 x u16 in a 52-byte chunk
+#[kani::proof]
+#[kani::unwind(12)]
+#[kani::stub(alloc::fmt::format, crate::vklib::empty_format)]
+#[kani::stub(std::vec::Vec::with_capacity, crate::vklib::checking_with_capacity_nostop)]
+#[kani::stub(crate::reader::AseReader::unzip, crate::vklib::stub_unzip_identity)]
+fn c12_q_tilemap_cel_declared_size() {
+    let mut buf: [u8; 52] = kani::any();
+    buf[7] = 3;
+    buf[8] = 0;
+    buf[20] = 32;
+    buf[21] = 0;
+    input_len(52);
+    let r = crate::cel::parse_chunk(&buf, PixelFormat::Rgba);
+    kani::cover!(rd16(&buf, 16) == 0xffff && rd16(&buf, 18) == 0xffff, "declared 65535 x 65535 tiles");
+    native_reservation_check();
+    core::mem::forget(r);
+}
